@@ -5,4 +5,4 @@ W=$(mktemp -d /tmp/tryseed.XXXXXX)
 git -C /repo worktree add -q --detach "$W/repo" HEAD || exit 2
 trap 'git -C /repo worktree remove --force "$W/repo"; git -C /repo worktree prune; rm -rf "$W"' EXIT
 git -C "$W/repo" apply "$V/seeded/$n/patch.diff" || { echo APPLY-FAILED; exit 2; }
-VERIF_ONLY="$only" VERIF_REPO="$W/repo" VERIF_OUT="$W/out" "$V/check" $p 2>&1 | grep -v "^  inputs" | cut -c1-400 | tail -${TAILN:-6}
+VERIF_ONLY="$only" VERIF_REPO="$W/repo" VERIF_OUT="$W/out" "$V/check" $p 2>&1 | grep -v "^  inputs" | cut -c1-${CUTN:-400} | tail -${TAILN:-6}
